@@ -27,6 +27,11 @@ pub enum Op {
     Record(u8, u8),
     /// emit a metric whose own labels are the subset (bitmask) of [shared, user, own, late]
     Emit(u8, u8),
+    /// emit the metric "m_boom": under filter 3 the user-supplied label filter panics on it
+    /// (caught at the call site); under the other filters it is an ordinary emission
+    EmitBoom,
+    /// record the `shared` field on the *parent* of the current span (the child already exists)
+    RecordParent(u8),
 }
 
 #[derive(Clone, Debug, Serialize, Deserialize)]
@@ -60,6 +65,19 @@ impl std::fmt::Debug for Plain {
     }
 }
 
+/// Filter 3: admits everything, panics when asked about the metric "m_boom".
+#[derive(Clone)]
+struct Panicky;
+struct FilterPanic;
+impl LabelFilter for Panicky {
+    fn should_include_label(&self, name: &KeyName, _label: &Label) -> bool {
+        if name.as_str() == "m_boom" {
+            std::panic::resume_unwind(Box::new(FilterPanic));
+        }
+        true
+    }
+}
+
 #[derive(Clone)]
 struct Custom;
 impl LabelFilter for Custom {
@@ -81,7 +99,7 @@ type Labels = BTreeMap<String, String>;
 
 fn filter_ok(filter: u8, metric: &str, k: &str, v: &str) -> bool {
     match filter {
-        0 => true,
+        0 | 3 => true,
         1 => k == "shared" || k == "user",
         _ => metric != "m_skip" && !v.starts_with('x'),
     }
@@ -108,20 +126,25 @@ impl Scenario for C17Tracing {
                     .map(|_| match r.below(10) {
                         0..=2 if depth < 5 => {
                             depth += 1;
-                            Op::Enter(if r.chance(200) { 4 + r.below(3) as u8 } else { r.below(4) as u8 }, r.below(4) as u8)
+                            Op::Enter(if r.chance(250) { 4 + r.below(4) as u8 } else { r.below(4) as u8 }, r.below(4) as u8)
                         }
                         3 if depth > 0 => {
                             depth -= 1;
                             Op::Exit
                         }
-                        4..=5 => Op::Record(r.below(2) as u8, r.below(4) as u8),
+                        4 => Op::Record(r.below(2) as u8, r.below(4) as u8),
+                        5 => match r.below(4) {
+                            0 => Op::EmitBoom,
+                            1 => Op::RecordParent(r.below(4) as u8),
+                            _ => Op::Record(r.below(2) as u8, r.below(4) as u8),
+                        },
                         _ => Op::Emit(r.below(16) as u8, r.below(4) as u8),
                     })
                     .collect()
             })
             .collect();
         let shared_span = if r.chance(300) { Some((r.range(1, 4) as u32, r.range(1, 3) as u32)) } else { None };
-        Plan { shared_span, filter: r.below(3) as u8, threads }
+        Plan { shared_span, filter: if r.chance(150) { 3 } else { r.below(3) as u8 }, threads }
     }
     fn execute(&self, plan: &Plan, sched: &SchedSpec) -> RunReport {
         let log = new_log();
@@ -136,6 +159,7 @@ impl Scenario for C17Tracing {
             let rec: Arc<dyn Recorder + Send + Sync> = match p.filter {
                 0 => Arc::new(TracingContextLayer::all().layer(double)),
                 1 => Arc::new(TracingContextLayer::only_allow(["shared", "user"]).layer(double)),
+                3 => Arc::new(TracingContextLayer::new(Panicky).layer(double)),
                 _ => Arc::new(TracingContextLayer::new(Custom).layer(double)),
             };
             let mut hs = vec![];
@@ -156,7 +180,7 @@ impl Scenario for C17Tracing {
                                 Op::Enter(kind, v) => {
                                     let s = val(*v);
                                     let n = *v as u64 + 10;
-                                    let (sp, own): (tracing::Span, Vec<(&str, String)>) = match kind % 7 {
+                                    let (sp, own): (tracing::Span, Vec<(&str, String)>) = match kind % 8 {
                                         // wide spans: two of them nested carry more labels than the pooled label
                                         // maps keep capacity for
                                         4 => (span!(tracing::Level::INFO, "wide_a", wa0 = n, wa1 = n, wa2 = n, wa3 = n, wa4 = n, wa5 = n, wa6 = n, wa7 = n, wa8 = n, wa9 = n, wa10 = n, wa11 = n, wa12 = n, wa13 = n, wa14 = n, wa15 = n), ["wa0", "wa1", "wa2", "wa3", "wa4", "wa5", "wa6", "wa7", "wa8", "wa9", "wa10", "wa11", "wa12", "wa13", "wa14", "wa15"].iter().map(|k| (*k, n.to_string())).collect()),
@@ -167,15 +191,17 @@ impl Scenario for C17Tracing {
                                         3 => (span!(tracing::Level::INFO, "k3", late = Empty), vec![]),
                                         // explicit root: not a child of the span that is current here
                                         6 => (span!(parent: None, tracing::Level::INFO, "detached", leaf = s.as_str(), own_root = n), vec![("leaf", s.clone()), ("own_root", n.to_string())]),
+                                        // a span that declares no fields at all
+                                        7 => (span!(tracing::Level::INFO, "bare"), vec![]),
                                         _ => unreachable!(),
                                     };
                                     let mut labels: Labels = own.into_iter().map(|(k, v)| (k.to_string(), v)).collect();
-                                    if let (Some((_, parent)), true) = (model.last(), kind % 7 != 6) {
+                                    if let (Some((_, parent)), true) = (model.last(), kind % 8 != 6) {
                                         for (k, v) in parent {
                                             labels.entry(k.clone()).or_insert_with(|| v.clone());
                                         }
                                     }
-                                    model.push((*kind % 7, labels));
+                                    model.push((*kind % 8, labels));
                                     entered.push(sp.entered());
                                 }
                                 Op::Exit => {
@@ -202,8 +228,31 @@ impl Scenario for C17Tracing {
                                         }
                                     }
                                 }
-                                Op::Emit(mask, v) => {
-                                    let name = if *v == 3 { "m_skip" } else { "m_one" };
+                                Op::RecordParent(v) => {
+                                    let n = model.len();
+                                    if n >= 2 && model[n - 2].0 < 3 {
+                                        let val = *v as u64 + 200;
+                                        entered[n - 2].record("shared", val);
+                                        // only the parent's own view changes: the child took its copy when
+                                        // it was created
+                                        model[n - 2].1.insert("shared".into(), val.to_string());
+                                    }
+                                }
+                                Op::EmitBoom if filter == 3 => {
+                                    let key = Key::from_name("m_boom");
+                                    let r = std::panic::catch_unwind(std::panic::AssertUnwindSafe(|| drop(rec.register_counter(&key, &MD))));
+                                    if let Err(p) = r {
+                                        if !p.is::<FilterPanic>() {
+                                            std::panic::resume_unwind(p);
+                                        }
+                                    }
+                                }
+                                Op::EmitBoom | Op::Emit(..) => {
+                                    let (mask, v): (&u8, &u8) = match op {
+                                        Op::Emit(m, v) => (m, v),
+                                        _ => (&0, &0),
+                                    };
+                                    let name = if matches!(op, Op::EmitBoom) { "m_boom" } else if *v == 3 { "m_skip" } else { "m_one" };
                                     let own: Vec<(String, String)> = OWN.iter().enumerate().filter(|(i, _)| mask & (1 << i) != 0).map(|(_, k)| (k.to_string(), format!("metric-{}", k))).collect();
                                     let key = Key::from_parts(name, own.iter().map(|(k, v)| Label::new(k.clone(), v.clone())).collect::<Vec<_>>());
                                     let before = log.lock().unwrap().len();
